@@ -173,8 +173,9 @@ def encode_value(kind, v, b):
 
 class DexBuilder:
     def __init__(self, version=b"035", sort_pools=True, map_order=None, extra_strings=(), extra_types=(), strings_last=False,
-                 tail=b""):
+                 tail=b"", string_data_order=None):
         self.classes = []
+        self.string_data_order = string_data_order    # None (order of the ids) | "reverse" | function n -> permutation
         self.strings_last = strings_last    # string data after the map list, at the very end of the file
         self.tail = tail                    # bytes appended after everything else (still inside file_size)
         self.version = version
@@ -416,9 +417,15 @@ class DexBuilder:
         # string data (normally before the map list; with strings_last after it, ending the file)
         sd_off = []
         sdata = bytearray()
-        rel = []
-        for s in self.strings:
-            rel.append(len(sdata))
+        rel = [0] * len(self.strings)
+        order = list(range(len(self.strings)))
+        if self.string_data_order == "reverse":
+            order.reverse()
+        elif self.string_data_order is not None:
+            order = list(self.string_data_order(len(self.strings)))          # a function n -> permutation of range(n)
+        for k in order:                                                       # the data items need not follow the order of the ids
+            s = self.strings[k]
+            rel[k] = len(sdata)
             sdata += uleb(len(utf16_units(s))) + mutf8(s) + b"\0"
         n_items = len(items) + 2 + sum(1 for x in (1, n_s, n_t, n_p, n_f, n_m, n_c) if x > 0)
         if not self.strings_last:
